@@ -183,3 +183,46 @@ package pipeline
 //@   pure
 //@   assigns nothing
 //@   ensures [empty] ret == matrixEmpty(m)
+
+// ---- matrix marshalling shapes (C03, C09, C14) ----
+
+//@ define simpleMatrix(m) := len(m.Setup) == 1 && len(m.Setup[""]) != 0 && len(m.Adjustments) == 0 && len(m.RemainingFields) == 0
+
+//@ func (*Matrix).isSimple
+//@   requires m != nil
+//@   pure
+//@   assigns nothing
+//@   ensures [simple] ret == simpleMatrix(m)
+
+//@ func (MatrixSetup).MarshalYAML
+//@   pure
+//@   assigns nothing
+//@   ensures [anon]  len(ms) == 1 && len(ms[""]) > 0 ==> ret1 == nil && ret0 == box([]string, ms[""])
+//@   ensures [named] !(len(ms) == 1 && len(ms[""]) > 0) ==> ret1 == nil && ret0 == box(map[string][]string, ms)
+
+//@ func (MatrixAdjustmentWith).MarshalYAML
+//@   pure
+//@   assigns nothing
+//@   ensures [anon]  has(maw, "") && len(maw) == 1 ==> ret1 == nil && ret0 == box(string, maw[""])
+//@   ensures [named] !(has(maw, "") && len(maw) == 1) ==> ret1 == nil && ret0 == box(map[string]string, maw)
+
+//@ func (*Matrix).MarshalYAML
+//@   requires m != nil
+//@   assigns nothing
+//@   ensures [simple] simpleMatrix(m) ==> ret1 == nil && ret0 == box([]string, m.Setup[""])
+//@   ensures [full]   !simpleMatrix(m) ==> ret1 == nil && ret0 != nil && !typeis(ret0, []string)
+
+//@ func (MatrixSetup).MarshalJSON
+//@   assigns nothing
+//@   ensures [anon]  ret1 == nil && len(ms) == 1 && len(ms[""]) > 0 ==> jsonOf(ret0, box([]string, ms[""]))
+//@   ensures [named] ret1 == nil && !(len(ms) == 1 && len(ms[""]) > 0) ==> jsonOf(ret0, box(map[string][]string, ms))
+
+//@ func (MatrixAdjustmentWith).MarshalJSON
+//@   assigns nothing
+//@   ensures [anon]  ret1 == nil && has(maw, "") && len(maw) == 1 ==> jsonOf(ret0, box(string, maw[""]))
+//@   ensures [named] ret1 == nil && !(has(maw, "") && len(maw) == 1) ==> jsonOf(ret0, box(map[string]string, maw))
+
+//@ func (*Matrix).MarshalJSON
+//@   requires m != nil
+//@   assigns everything
+//@   ensures [simple] ret1 == nil && old(simpleMatrix(m)) ==> jsonOf(ret0, box([]string, old(m.Setup[""])))
